@@ -107,7 +107,7 @@ def check_state(h, v, acc, tier):
                 acc.outcome(ch)
                 if e > s and (S is None or set(S) & present) and any(cells[s:e]):
                     acc.nontriv(hash((pre[2], None if S is None else tuple(S), s, e)))
-    raw = m if tier != 'quick' else [None, m[1]]
+    raw = m[:5] if tier != 'quick' else [None, m[1]]
     for S in raw:
         for i in bounds:
             for j in bounds:
